@@ -793,7 +793,7 @@ func runC13(args []string) error {
 	distinct := distinctSet{}
 	nEnv := 2000
 	if *tier == "thorough" {
-		nEnv = 30000
+		nEnv = 20000
 	}
 	id := 0
 	var idMu sync.Mutex
@@ -1106,7 +1106,7 @@ func runC13(args []string) error {
 	}
 	per := 250
 	if *tier == "thorough" {
-		per = 1900
+		per = 500
 	}
 	if err := chunk("env", "env_case", "env_mis", envCases, per); err != nil {
 		return err
